@@ -8,6 +8,7 @@ from .abs2 import AbsSpectrum
 from .. import REAL
 from ..spectroscopy.labsetup import LabSetup
 from ..builders.aggregates import Aggregate
+from ..core.managers import energy_units
 
 class MockAbsSpectrumCalculator(AbsSpectrumCalculator):
         
@@ -128,7 +129,10 @@ class MockAbsSpectrumCalculator(AbsSpectrumCalculator):
             dephx = pathway.dephs[1]
                     
         data = numpy.zeros(N1, dtype=REAL)
-        o1 = self.oa1.data 
+        # frequency, width and dephasing rate of the pathway are in internal
+        # units; so has to be the frequency axis they are put on
+        with energy_units("int"):
+            o1 = self.oa1.data 
         
         if shape == "Gaussian":
                               
